@@ -89,3 +89,104 @@ package task
 //@   ensures ok ==> portsOk && spans == len(wants.StaticPorts)
 //@   ensures ok ==> compared && cmp == -1
 //@   ensures ok ==> sizes == 2 && (availSize >= wantSize ==> availSize - wantSize >= len(wants.InboundChannels))
+
+// ---------------------------------------------------------------------------------------------------------
+// C04: a task belongs to at most one environment; release, kill and cleanup never touch tasks owned by another one.
+
+// the code's definition of "owned": all Mesos identifiers assigned and a parent role set
+//@ ghost pure func locked(t *Task) bool =
+//@     len(t.hostname) > 0 && len(t.agentId) > 0 && len(t.offerId) > 0 && len(t.taskId) > 0 && len(t.executorId) > 0 && t.parent != nil
+
+//@ func (t *Task) isLocked() (l bool)
+//@   property C04
+//@   opt strings=uf
+//@   pure
+//@   requires t != nil
+//@   ensures l == locked(t)
+
+//@ func (t *Task) IsLocked() (l bool)
+//@   property C04
+//@   opt strings=uf
+//@   pure
+//@   requires t != nil
+//@   ensures l == locked(t)
+
+//@ func (t *Task) IsClaimable() (c bool)
+//@   property C04
+//@   opt strings=uf
+//@   pure
+//@   requires t != nil
+//@   ensures c == (!locked(t) && t.status == ACTIVE && t.state == sm.STANDBY)
+
+//@ func (t *Task) SetParent(parent parentRole)
+//@   property C04
+//@   opt strings=uf
+//@   modifies t.parent
+//@   requires t != nil
+//@   ensures t.parent == parent
+
+// environment of the role that owns a task (uninterpreted: a function of the parent role)
+//@ ghost func envOfRole(p parentRole) uid.ID
+//@ func (p parentRole) GetEnvironmentId() (id uid.ID)
+//@   noverify
+//@   pure
+//@   ensures id == envOfRole(p)
+
+//@ func (t *Task) GetEnvironmentId() (id uid.ID)
+//@   property C04
+//@   opt strings=uf
+//@   pure
+//@   requires t != nil
+//@   ensures t.parent != nil ==> id == envOfRole(t.parent)
+
+// releaseTask: a task owned by ANOTHER environment is refused and left untouched; otherwise it becomes unowned.
+// Frame: nothing but this task's parent link is written.
+//@ func (m *Manager) releaseTask(envId uid.ID, task *Task) (err error)
+//@   property C04
+//@   opt strings=uf
+//@   modifies task.parent
+//@   ensures task != nil && old(locked(task)) && old(envOfRole(task.parent)) != envId ==> err != nil && task.parent == old(task.parent)
+//@   ensures task != nil && !(old(locked(task)) && old(envOfRole(task.parent)) != envId) ==> err == nil && task.parent == nil
+//@   ensures task == nil ==> err != nil
+
+// the filters that select what Cleanup / KillTasks may kill accept unowned tasks only
+//@ closure (*Manager).Cleanup #1
+//@   property C04
+//@   opt strings=uf
+//@   pure
+//@   requires t != nil
+//@   ensures result == !locked(t)
+
+//@ closure (*Manager).KillTasks #1
+//@   property C04
+//@   opt strings=uf
+//@   requires t != nil
+//@   ensures result ==> !old(locked(t))
+
+// what is handed to doKillTasks is exactly what roster.filtered returned for that filter
+//@ func (m *Manager) Cleanup() (killed Tasks, running Tasks, err error)
+//@   property C04
+//@   ghostvar sel Tasks = nil
+//@   ghostvar filtered bool = false
+//@   on call (*roster).filtered : assert argfunc1 == "(*core/task.Manager).Cleanup$1" && !filtered
+//@   on aftercall (*roster).filtered : sel = result ; filtered = true
+//@   on call (*Manager).doKillTasks : assert filtered && arg1 == sel
+
+//@ func (m *Manager) KillTasks(taskIds []string) (killed Tasks, running Tasks, err error)
+//@   property C04
+//@   ghostvar sel Tasks = nil
+//@   ghostvar filtered bool = false
+//@   on aftercall (*roster).filtered when argfunc1 == "(*core/task.Manager).KillTasks$1" : sel = result ; filtered = true
+//@   on call (*Manager).doKillTasks : assert filtered && arg1 == sel
+
+// Filtered returns only elements its filter accepted (acc records the filter's verdicts)
+//@ func (m Tasks) Filtered(filter Filter) (tasks Tasks)
+//@   property C04
+//@   opt pure-params=filter
+//@   ghostvar acc map[*Task]bool = empty
+//@   on aftercall <dynamic> : acc[arg0] = acc[arg0] || result
+//@   ensures forall k int :: 0 <= k && k < len(tasks) ==> acc[tasks[k]]
+//@   ensures forall k int :: 0 <= k && k < len(tasks) ==> exists j int :: 0 <= j && j < len(m) && tasks[k] == m[j]
+//@   loop 1 invariant #i >= -1 && #i < len(m) && fresh(tasks)
+//@   loop 1 invariant forall k int :: 0 <= k && k < len(tasks) ==> acc[tasks[k]]
+//@   loop 1 invariant forall k int :: 0 <= k && k < len(tasks) ==> exists j int :: 0 <= j && j <= #i && tasks[k] == m[j]
